@@ -31,8 +31,8 @@ CLAIMS = {
              text="Per concrete bundle shape (0..3 (4) elements; int/string messages, empty, singly and doubly nested bundles) one query covers all 64-bit time tags and payloads, with the destination pre-filled with stale bytes and exact or spare capacity: recognised as bundle, element count, each element byte-identical with exact size, time tag, total length == length function; a message is never a bundle.",
              note="append_bundle of subtree-serialize.cpp not encoded", ref="4/C08"),
  "C14": dict(units="include/rtosc/port-sugar.h callbacks (real macros, instantiated in the harness TU) + src/cpp/ports.cpp metadata code via IR; src/rtosc.c, src/dispatch.c",
-             text="Per port kind (rParamI [-5,5], rParam char [0,127], rParamF [-3.5,20.25], rToggle, rOption with integer argument, rString(4)) and per query/set, one SAT query covers every incoming value of the storage type and every stored state: clamp, reply on query without state change, broadcast of the new value at the port address, exactly one /undo_change with address, true old and new value iff the value changed, nothing else modified. The callback is invoked directly with d.loc/d.port/d.obj set as dispatch sets them; a recording RtData encodes variadic replies with the real rtosc_vmessage.",
-             note="array forms, option symbols, unbounded rParamI and the toggle query are in the harness but excluded (queries do not finish / unmodelled libc path); atoi/atof/strtol/strtod are environment models", ref="4/C14"),
+             text="Per port kind (rParamI [-5,5], rParam char [0,127], rParamF [-3.5,20.25], rToggle, rOption with integer argument, rString(4), rArrayI[4] [0,9], rArrayF[3] [0,1], rArrayT[3]) and per query/set, one SAT query covers every incoming value of the storage type and every stored state: clamp, only the addressed array element touched, reply on query without state change, broadcast of the new value at the port address, exactly one /undo_change with address, true old and new value iff the value changed, nothing else modified. The callback is invoked directly with d.loc/d.port/d.obj set as dispatch sets them; a recording RtData encodes variadic replies with the real rtosc_vmessage.",
+             note="option symbols and unbounded rParamI are in the harness but excluded (unmodelled libc path / cbmc error); array element index concrete per query (first and last); atoi/atof/strtol/strtod are environment models", ref="4/C14"),
  "C20": dict(units="src/cpp/midimapper.cpp realtime half (MidiMapperStorage::handleCC/cloneValues, MidiBijection, MidiMapperRT::handleCC, PendingQueue) via IR; src/rtosc.c",
              text="PARTIAL: the realtime half only, one step from an arbitrary well-formed snapshot (3 mapping tuples with symbolic ids and coarse flags, 2 parameter slots with symbolic 14-bit values; slot assignment, presence of a snapshot and number of pending ids enumerated): an assigned controller drives exactly its parameter's callback once with the composed 14-bit value in [0,16383] and leaves other values alone; an unassigned one produces no parameter message and is offered to the non-realtime side at most once while a learn request waits; cloneValues carries each controller's 7 bits into the next generation; the bijection output is within [min,max] and monotone.",
              note="the map/unMap/relearn HISTORIES of the statement run through MidiMappernRT (std::map, std::deque, heap lambdas) and the message exchange between the halves: NOT covered; state constructed directly with -fno-access-control", ref="3/C20"),
